@@ -22,6 +22,6 @@ def finish(prop, tier, seed, res, t0, R):
         'rule': 'history checker over the recorded (in.pos, out.pos, ret) of every streaming compression call: a call with consumable input and writable output must consume, produce or complete; positions never move backwards; a logical bound on the number of calls; at every point where flush returned 0 the bytes so far are decoded by an independent decoder context and must equal the input consumed so far; '
                 'one case in five runs in a stable-buffer mode (stable input: same source pointer, growing size, positions only moved by the library; stable output; both); decoder fed exactly its size hints must never ask beyond the frame and must consume exactly the frame. distinct non-trivial = distinct script classes + distinct buffered-fill levels (4 KiB buckets) at completed flushes',
         'cases': res.stat('cases'), 'stream_calls': res.stat('stream_calls'), 'calls_with_input_and_room': res.stat('calls_with_input_and_room'), 'flush_points_checked': res.stat('flush_points_checked'),
-        'hint_runs': res.stat('hint_runs'), 'hint_runs_with_empty_calls_at_hostage_point': res.stat('hint_runs_with_empty_calls_at_hostage_point'), 'hint_runs_after_abandoned_frame': res.stat('hint_runs_after_abandoned_frame'), 'hint_runs_abandoned_at_hostage_point': res.stat('hint_runs_abandoned_at_hostage_point'), 'hint_runs_with_hostage_episode': res.stat('hint_runs_with_hostage_episode'), 'script_cells': res.cells.get('script', {}),
+        'frames_after_abandoned_frame_with_parked_output': res.stat('frames_after_abandoned_frame_with_parked_output'), 'hint_runs': res.stat('hint_runs'), 'hint_runs_with_empty_calls_at_hostage_point': res.stat('hint_runs_with_empty_calls_at_hostage_point'), 'hint_runs_after_abandoned_frame': res.stat('hint_runs_after_abandoned_frame'), 'hint_runs_abandoned_at_hostage_point': res.stat('hint_runs_abandoned_at_hostage_point'), 'hint_runs_with_hostage_episode': res.stat('hint_runs_with_hostage_episode'), 'script_cells': res.cells.get('script', {}),
     }
     return core.finish(prop, tier, seed, 'exploration', res, cov, ['bounded progress stands in for "finitely many steps"', 'sampling'], t0, R)
